@@ -90,13 +90,8 @@ Definition pol_machine : policy := [
 ].
 
 (* --- composite.Runner.
-   HBVia "composite-run-then-reload" (field ctx).  Run stores its derived context under
-   runnablesMu before it asks the FSM for New->Booting; reloadWithRestart reads it (no
-   runnablesMu) only after Reload's Running->Reloading transition succeeded.  The FSM reaches
-   Running only through Run's own Booting->Running transition, and every transition goes through
-   go-fsm's mutex, so the write happens-before the read.  ASSUMES Run is not invoked a second
-   time while a Reload is in flight (the supervisor calls Run once; a second Run fails at
-   New->Booting but would still store ctx first).
+   ctx is under runnablesMu on both sides since /repo b850328 (it used to be an HBVia entry that
+   assumed Run() is never re-entered; the dynamic leg, calling Run() twice, found that race).
    HBVia "composite-initial-boot" (field serverErrors).  boot re-makes the channel only while
    the FSM is in Booting (repo commit 350754d), i.e. only inside Run's first boot: Run's select
    reads it later in the same goroutine, the children (startRunnable) are spawned by that boot
@@ -112,8 +107,7 @@ Definition pol_composite : policy := [
   P "composite.Runner" "configCallback" CtorOnly;
   P "composite.Runner" "reloadMu" SyncTyped;
   P "composite.Runner" "runnablesMu" SyncTyped;
-  P "composite.Runner" "ctx"
-    (HBVia "composite-run-then-reload" [HB "composite.Runner.Run" "composite.Runner.reloadWithRestart"]);
+  P "composite.Runner" "ctx" (GuardedBy "composite.Runner.runnablesMu");   (* since /repo b850328 *)
   P "composite.Runner" "serverErrors"
     (HBVia "composite-initial-boot"
        (* the write in boot is excused only where it is lexically guarded by the Booting test *)
